@@ -16,6 +16,9 @@ REGS = {
 }
 REGS['r8'] = REGS['r6'] + [('Word', 6), ('Heap', 7)]
 REGS['r10'] = REGS['r8'] + [('Tiny', 8), ('Wide', 9)]
+for _k, _base in (('p6a', 'r6'), ('p6b', 'r6'), ('p6c', 'r6'), ('p10', 'r10'), ('p1', 'r1')):
+    REGS[_k] = REGS[_base]
+PAR_SLICE = {'p6a': (0, 3), 'p6b': (1, 3), 'p6c': (2, 3), 'p10': (0, 1), 'p1': (0, 1)}
 HAS_SERIAL = {'Tiny': False, 'Word': True, 'Heap': True, 'Zst': False, 'Wide': True, 'Odd': False}
 
 VK = ['Ref', 'Mut', 'OptRef', 'OptMut']
@@ -142,7 +145,7 @@ def gen_queries(rng, n, nrand):
         return qs
     # every kind x every component (identifier present on odd components)
     for c in comps:
-        for k in VK:
+        for k in (VK if n <= 6 else [VK[c % 4], VK[(c + 2) % 4]]):
             add([(c, k)], (0 if (c + VK.index(k)) % 3 == 0 else (1 if (c + VK.index(k)) % 3 == 1 else None)), ('None',))
     if n >= 2:
         a, b = (1, 4) if n >= 5 else (0, n - 1)
@@ -150,7 +153,8 @@ def gen_queries(rng, n, nrand):
         for k1 in VK:
             for k2 in VK:
                 add([(a, k1), (b, k2)], None, ('None',))
-                add([(b, k2), (a, k1)], 1, ('None',))
+                if n <= 6 or (VK.index(k1) + VK.index(k2)) % 2 == 0:
+                    add([(b, k2), (a, k1)], 1, ('None',))
     if n >= 3:
         x, y, z = (0, 2, 3) if n >= 4 else (0, 1, 2)
         H = lambda c: ('Has', c)
@@ -169,7 +173,7 @@ def gen_queries(rng, n, nrand):
             if i % 3 == 0:
                 add([], 0, f)
     # wide queries: all components, each kind
-    for k in VK:
+    for k in (VK if n <= 6 else ['Mut', 'OptRef']):
         add([(c, k) for c in comps], len(comps) // 2, ('None',))
     add([(c, VK[c % 4]) for c in reversed(comps)], 0, ('None',))
     # random part
@@ -302,13 +306,15 @@ def emit(name, seed, nq, ne):
     n = len(comps)
     rng = random.Random('%s-%d' % (name, seed))
     shapes = sample_shapes(name, n, rng)
-    max_orders = 3 if n <= 6 else 2
-    rich = n <= 6  # entities! macro forms
+    par_mode = name in PAR_SLICE
+    max_orders = 1 if par_mode else (3 if n <= 6 else 2)
+    rich = n <= 6 and not par_mode  # entities! macro forms
     o = []
     w = o.append
     w('// @generated by gen/gen_reg.py %s seed=%d queries=%d entries=%d' % (name, seed, nq, ne))
     w('#![allow(unused_variables, unused_mut, unused_imports, clippy::all)]')
-    w('use brood::{entities, entities::Batch, entity, query::{filter, result, Views}, Entity, Query, Registry, World, system::System, registry::ContainsViews};')
+    w('use brood::{entities, entities::Batch, entity, query::{filter, result, Views}, Entity, Query, Registry, World, system::{System, ParSystem}, registry::ContainsViews};')
+    w('use rayon::iter::ParallelIterator;')
     w('use vcommon::{comps::*, talloc::tracked};')
     w('use vcore::reg::*;')
     w('use vcore::reg_world_ops;')
@@ -326,6 +332,12 @@ def emit(name, seed, nq, ne):
 
     # ---------------- queries
     queries = gen_queries(rng, n, nq)
+    if par_mode:
+        off, stride = PAR_SLICE[name]
+        # every query of this crate is also compiled as a parallel query; prefer queries with views
+        cands = [q for q in queries if q[0]] + [q for q in queries if not q[0]][:2]
+        queries = cands[off::stride]
+        queries = queries[::6] if name == 'p10' else queries[::2]
     w('static QUERIES: &[QueryMeta] = &[')
     for qi, (views, id_pos, f) in enumerate(queries):
         text = 'Query<%s, %s>' % (views_ty(views, id_pos), flt_ty(f))
@@ -383,6 +395,8 @@ def emit(name, seed, nq, ne):
 
     # ---------------- entry triples
     entries = gen_entries(rng, n, ne)
+    if par_mode:
+        entries = entries[:2]
     w('static ENTRIES: &[EntryMeta] = &[')
     for ei, (views, ev, ev_id, sub, sub_id, f) in enumerate(entries):
         text = 'Query<%s, filter::None, Views!(), %s> / sub Query<%s, %s>' % (
@@ -408,6 +422,37 @@ def emit(name, seed, nq, ne):
         w('    for id in ids { out.push(match result.entries.entry(*id) { None => None, Some(mut e) => Some(match e.query(Query::<%s, %s>::new()) { None => None, Some(%s) => { %s Some(row) } }) }); }' % (
             views_ty(sub, sub_id), flt_ty(f, ''), rpat, body))
         w('    out')
+        w('}')
+
+    # ---------------- parallel queries (C09): a subset of the query pool through par_query / ParSystem
+    pick = list(range(len(queries))) if par_mode else []
+    w('static PAR_QUERIES: &[usize] = &[%s];' % ', '.join(str(i) for i in pick))
+    for qi in pick:
+        views, id_pos, f = queries[qi]
+        names = ['v%d' % i for i in range(len(views))]
+        pat = list(names)
+        if id_pos is not None:
+            pat.insert(id_pos, 'id')
+        rpat = 'result!(%s)' % ', '.join(pat)
+        mk = 'let mut row = QRow::default(); '
+        if id_pos is not None:
+            mk += 'row.id = Some(id); '
+        for i, (c, k) in enumerate(views):
+            mk += 'row.cols.push((%d, v%d.observe(salt))); ' % (c, i)
+        mk += 'row'
+        vt = views_ty(views, id_pos)
+        vta = views_ty(views, id_pos, 'a')
+        w('struct PSys%d { salt: Option<u32>, rows: std::sync::Mutex<Vec<QRow>> }' % qi)
+        w('impl ParSystem for PSys%d {' % qi)
+        w("    type Filter = %s; type Views<'a> = %s; type ResourceViews<'a> = Views!(); type EntryViews<'a> = Views!();" % (flt_ty(f), vta))
+        w("    fn run<'a, R_, S, I, E>(&mut self, query_result: brood::query::Result<'a, R_, S, I, Self::ResourceViews<'a>, Self::EntryViews<'a>, E>) where R_: ContainsViews<'a, Self::EntryViews<'a>, E>, I: ParallelIterator<Item = Self::Views<'a>> {")
+        w('        let salt = self.salt; let rows = &self.rows;')
+        w('        query_result.iter.for_each(|%s| { let row = { %s }; rows.lock().unwrap().push(row); });' % (rpat, mk))
+        w('    }')
+        w('}')
+        w('fn pq%d(w: &mut W, term: PTerm, salt: Option<u32>, pool: &rayon::ThreadPool) -> ParOut {' % qi)
+        w('    if term == PTerm::System { let mut s = PSys%d { salt, rows: std::sync::Mutex::new(Vec::new()) }; pool.install(|| w.run_par_system(&mut s)); return ParOut { rows: s.rows.into_inner().unwrap(), ..Default::default() }; }' % qi)
+        w('    pool.install(|| { let result = w.par_query(Query::<%s, %s>::new()); par_consume(term, result.iter.map(move |%s| { %s })) })' % (vt, flt_ty(f, ''), rpat, mk))
         w('}')
 
     # ---------------- Reg impl
@@ -494,6 +539,8 @@ def emit(name, seed, nq, ne):
     w('    fn queries() -> &\'static [QueryMeta] { QUERIES }')
     w('    fn run_query(w: &mut W, q: usize, mode: QMode, salt: Option<u32>) -> QueryOut { match q { %s _ => unreachable!() } }' % ' '.join('%d => q%d(w, mode, salt),' % (i, i) for i in range(len(queries))))
     w('    fn entry_query(w: &mut W, id: Id, q: usize, salt: Option<u32>) -> Option<Option<QRow>> { match q { %s _ => unreachable!() } }' % ' '.join('%d => eq%d(w, id, salt),' % (i, i) for i in range(len(queries))))
+    w('    fn par_queries() -> &\'static [usize] { PAR_QUERIES }')
+    w('    fn run_par_query(w: &mut W, q: usize, term: PTerm, salt: Option<u32>, pool: &rayon::ThreadPool) -> ParOut { match q { %s _ => unreachable!() } }' % ' '.join('%d => pq%d(w, term, salt, pool),' % (i, i) for i in pick))
     w('    fn entry_metas() -> &\'static [EntryMeta] { ENTRIES }')
     w('    fn entries_query(w: &mut W, e: usize, ids: &[Id], salt: Option<u32>) -> EntriesOut { match e { %s _ => unreachable!() } }' % ' '.join('%d => en%d(w, ids, salt),' % (i, i) for i in range(len(entries))))
     w('}')
